@@ -294,3 +294,35 @@ func VH_C06_returnNamedResults() {
 	vhAssert(readX(nil) == want0 && readY(nil) == want1, "every result expression is evaluated before any result variable is assigned")
 	vhReach("end")
 }
+
+// results named _ are still results: the function needs a slot to return them from.
+// The real Comp.funcResultBinds declares the results of `func() (a T, b U)` for each naming style.
+func VH_C06_resultBinds() {
+	c := vhComp()
+	style := vhPick("results unnamed / named / blank", 3)
+	names := [][]string{{"", ""}, {"r", "s"}, {"_", "s"}}[style]
+	sample := func() (int, string) { return 0, "" }
+	t := vhTypeOf(sample)
+	var binds []*Bind
+	var funs []I
+	failed := false
+	func() {
+		defer func() {
+			if recover() != nil {
+				failed = true
+			}
+		}()
+		binds, funs = c.funcResultBinds(&ast.FuncType{}, t, names)
+	}()
+	vhAssert(!failed, "compiles")
+	if failed {
+		return
+	}
+	vhAssert(len(binds) == 2 && len(funs) == 2, "one binding per result")
+	if len(binds) != 2 {
+		return
+	}
+	vhAssert(binds[0].Desc.Index() != NoIndex && binds[1].Desc.Index() != NoIndex, "every result, also one named _, has a slot in the function's frame")
+	vhAssert(binds[0].Desc.Class() == IntBind && binds[1].Desc.Class() == VarBind, "an int result lives in the integer slots, a string result is boxed")
+	vhReach("end")
+}
